@@ -220,7 +220,8 @@ def run_manifest(w, acc, name, periods, ppk, mode, q, now, total, template='hand
                         break           # the Period ends before this entry starts: its duration does not admit it
                     if mode == 'live':
                         T = Fraction(int((now - doc.ast) / TD(microseconds=1)), 10 ** 6)
-                        if Fraction(t_ + d_, ts) > T:
+                        # (S@t - presentationTimeOffset counts from the start of the Period)
+                        if p.start + Fraction(t_ + d_ - rep.template.geti('presentationTimeOffset', 0), ts) > T:
                             break           # not complete yet
                     tr = w.get(mpd.split_url(rep.media_url(time=t_, number=sn)))
                     acc.count('evaluations')
